@@ -136,6 +136,16 @@ def run(sort="DOUBLE", group="arith", budget_s=60, known_labels=(), shard=0, nsh
                     cases.append(("fpToSBV", rm, a, size))
                     cases.append(("fpToUBV", rm, a, size))
                 cases.append(("fpToFP[fp]", rm, a, None))
+            # the ends of the target integer ranges (and the rounding ties next to them): INT_MIN is representable, INT_MAX + 1 is not
+            for size in (8, 16, 32, 64):
+                ends = []
+                for base in (-(2 ** (size - 1)), 2 ** (size - 1) - 1, 2 ** (size - 1), 2 ** size - 1, 2 ** size, 0):
+                    ends += [float(base), base - 0.5, base + 0.5, base - 1.0, base + 1.0, base - 0.25, base + 0.75]
+                for a in ends:
+                    if sort == "FLOAT":
+                        a = _from_bits(_bits(a, "FLOAT"), "FLOAT") if abs(a) < 3e38 else a
+                    cases.append(("fpToSBV", rm, a, size))
+                    cases.append(("fpToUBV", rm, a, size))
             for i in ints:
                 cases.append(("fpToFP[sbv]", rm, i, None))
                 cases.append(("fpToFPUnsigned", rm, i, None))
